@@ -34,7 +34,9 @@ def make_world(rng, root, nspecies=None, ninst=(1, 12), order='random', box_kind
             else:
                 sizes = [int(rng.integers(3, 9))]
             if len(sizes) > 1:
-                resn = [RESN[int(i)] for i in rng.integers(0, len(RESN), len(sizes))]
+                # distinct residue names inside a species: two residues with equal (name, size) but
+                # different atom names are outside the domain of the recognition algorithm
+                resn = [RESN[int(i)] for i in rng.choice(len(RESN), len(sizes), replace=False)]
             else:
                 resn = [name[:4]]
             sig = {(rn, s) for rn, s in zip(resn, sizes)}
